@@ -247,3 +247,116 @@ def runDecode (t : Ty) (p : DProg) (bs : Bytes) : PRes DecErr (Val t × Bytes) :
   | .err e => .err e | .panic w => .panic w | .unsupported => .unsupported
 
 end Sky.Codec
+
+/-! ### `encodeSizeX` and `encodeX` -/
+namespace Sky.Codec
+
+/-- a block of `i += n` statements only (the element-size block of a slice of fixed-size elements) -/
+def staticSize : SProg → Option Nat
+  | .done => some 0
+  | .add n k => (staticSize k).map (n + ·)
+  | _ => none
+
+def sumSizes {α} (f : α → Option Nat) : List α → Option Nat
+  | [] => some 0
+  | x :: xs => match f x, sumSizes f xs with
+    | some a, some b => some (a + b)
+    | _, _ => none
+
+/-- generated `encodeSizeX` (uint64 arithmetic is assumed not to wrap: sizes stay far below 2^64). -/
+def runSize : (t : Ty) → SProg → Val t → Option (Nat × SProg)
+  | .u8, .add n k, _ | .u16, .add n k, _ | .u32, .add n k, _ | .u64, .add n k, _
+  | .i8, .add n k, _ | .i16, .add n k, _ | .i32, .add n k, _ | .i64, .add n k, _
+  | .bool, .add n k, _ | .bytesN _, .add n k, _ => some (n, k)
+  | .bytes _, .lenBytes oe k, v => some (if oe && v.isEmpty then 0 else 4 + v.length, k)
+  | .slice _ _, .lenMul oe el k, v =>
+    if oe && v.isEmpty then some (0, k) else (staticSize el).map fun s => (4 + v.length * s, k)
+  | .slice _ t, .lenLoop oe el k, v =>
+    if oe && v.isEmpty then some (0, k) else
+    (sumSizes (fun x => match runSize t el x with | some (n, .done) => some n | _ => none) v).map
+      fun s => (4 + s, k)
+  | .unit, p, _ => some (0, p)
+  | .pair a b, p, (x, y) =>
+    match runSize a p x with
+    | none => none
+    | some (n, p') => match runSize b p' y with
+      | none => none
+      | some (m, p'') => some (n + m, p'')
+  | .omitempty t, p, v => runSize t p v
+  | _, _, _ => none
+
+def runSizeOf (t : Ty) (p : SProg) (v : Val t) : Option Nat :=
+  match runSize t p v with | some (n, .done) => some n | _ => none
+
+/-- `e.Xxx(…)`: write `w` into a buffer with `cap` bytes left — a slice-bounds panic if it does not fit. -/
+def writeE (w : Bytes) (cap : Nat) (k : EProg) : PRes EncErr (Bytes × Nat × EProg) :=
+  if cap < w.length then .panic "slice bounds out of range" else .ok (w, cap - w.length, k)
+
+def encLoop {α} (f : α → Nat → PRes EncErr (Bytes × Nat)) : List α → Nat → List Bytes → PRes EncErr (Bytes × Nat)
+  | [], cap, acc => .ok (acc.reverse.flatten, cap)
+  | x :: xs, cap, acc =>
+    match f x cap with
+    | .ok (w, cap') => encLoop f xs cap' (w :: acc)
+    | .err e => .err e | .panic s => .panic s | .unsupported => .unsupported
+
+/-- head of the length-prefixed encoder blocks: `none` = omitted (empty omitempty field) -/
+def encLenHead (oe : Bool) (max : Nat) (lenchk : Bool) (len : Nat) : Except EncErr Bool :=
+  if oe && len == 0 then .ok false
+  else if max > 0 ∧ len > max then .error .maxlen
+  else if lenchk && decide (len > 4294967295) then .error .lenOverflow
+  else .ok true
+
+/-- generated `encodeXToBuffer` body, writing into a buffer with `cap` bytes left. -/
+def runEnc : (t : Ty) → EProg → Val t → Nat → PRes EncErr (Bytes × Nat × EProg)
+  | .u8, .prim .u8 k, v, cap => writeE (enc .u8 v) cap k
+  | .u16, .prim .u16 k, v, cap => writeE (enc .u16 v) cap k
+  | .u32, .prim .u32 k, v, cap => writeE (enc .u32 v) cap k
+  | .u64, .prim .u64 k, v, cap => writeE (enc .u64 v) cap k
+  | .i8, .prim .i8 k, v, cap => writeE (enc .i8 v) cap k
+  | .i16, .prim .i16 k, v, cap => writeE (enc .i16 v) cap k
+  | .i32, .prim .i32 k, v, cap => writeE (enc .i32 v) cap k
+  | .i64, .prim .i64 k, v, cap => writeE (enc .i64 v) cap k
+  | .bool, .prim .bool k, v, cap => writeE (enc .bool v) cap k
+  | .bytesN _, .copyN _ k, v, cap => writeE v cap k
+  | .bytes _, .lenBytes oe max lenchk k, v, cap =>
+    match encLenHead oe max lenchk v.length with
+    | .error e => .err e
+    | .ok false => .ok ([], cap, k)
+    | .ok true => writeE (leBytes 4 v.length ++ v) cap k
+  | .slice _ t, .lenLoop oe max lenchk body k, v, cap =>
+    match encLenHead oe max lenchk v.length with
+    | .error e => .err e
+    | .ok false => .ok ([], cap, k)
+    | .ok true =>
+      match writeE (leBytes 4 v.length) cap k with
+      | .err e => .err e | .panic s => .panic s | .unsupported => .unsupported
+      | .ok (hd, cap1, _) =>
+        match encLoop (fun x c => match runEnc t body x c with
+            | .ok (w, c', .done) => .ok (w, c')
+            | .ok _ => .unsupported
+            | .err e => .err e | .panic s => .panic s | .unsupported => .unsupported) v cap1 [] with
+        | .ok (w, cap2) => .ok (hd ++ w, cap2, k)
+        | .err e => .err e | .panic s => .panic s | .unsupported => .unsupported
+  | .unit, p, _, cap => .ok ([], cap, p)
+  | .pair a b, p, (x, y), cap =>
+    match runEnc a p x cap with
+    | .err e => .err e | .panic s => .panic s | .unsupported => .unsupported
+    | .ok (w1, cap1, p') =>
+      match runEnc b p' y cap1 with
+      | .err e => .err e | .panic s => .panic s | .unsupported => .unsupported
+      | .ok (w2, cap2, p'') => .ok (w1 ++ w2, cap2, p'')
+  | .omitempty t, p, v, cap => runEnc t p v cap
+  | _, _, _, _ => .unsupported
+
+/-- generated `encodeX`: `n := encodeSizeX(obj); buf := make([]byte, n); encodeXToBuffer(buf, obj); return buf`
+— the result is the whole buffer, i.e. what was written followed by the bytes never written (zeros). -/
+def runEncode (t : Ty) (g : GenCodec) (v : Val t) : PRes EncErr Bytes :=
+  match runSizeOf t g.size v with
+  | none => .unsupported
+  | some n =>
+    match runEnc t g.enc v n with
+    | .ok (w, cap, .done) => .ok (w ++ List.replicate cap 0)
+    | .ok _ => .unsupported
+    | .err e => .err e | .panic s => .panic s | .unsupported => .unsupported
+
+end Sky.Codec
